@@ -68,7 +68,7 @@ def plan(tier: str, seed: int) -> list[dict]:
         cases.append({"k": "qcow2-snapshots", "i": (i := i + 1), "n": rng.choice([1, 2, 3, 5]), "ext": rng.random() < 0.3})
     for _ in range(30 * mult):
         cases.append({"k": "vdi-parent", "i": (i := i + 1), "depth": rng.choice([2, 2, 3, 4])})
-    fmts = ["vhdx", "vmdk", "vmdk-embedded", "hdd-image", "hdd-shot", "qcow2", "vmdk-embedded-unnamed"]
+    fmts = ["vhdx", "vmdk", "vmdk-embedded", "hdd-image", "hdd-shot", "qcow2", "vmdk-embedded-unnamed", "vhdx-unnamed"]
     for j in range(18 * mult):
         cases.append({"k": "missing", "i": (i := i + 1), "fmt": fmts[j % len(fmts)]})
     cases.append({"k": "fixture-avhdx", "i": 0, "weight": 10})
@@ -274,6 +274,17 @@ def _missing(case, rng, ctx, res):
         fh = as_handle(sf.to_bytes())
         assert not hasattr(fh, "name")
         o = call(lambda: VMDK([fh] if rng.random() < 0.5 else fh).read(512))
+    elif fmt == "vhdx-unnamed":
+        # a differencing VHDX handed over as a nameless stream: there is no directory to look for the parent in
+        from dissect.hypervisor.disk.vhdx import VHDX
+        from vf.writers import vhdx as wvx
+
+        loc = wvx.parent_locator([("parent_linkage", "{83ed0ec1-24c8-49a6-a959-5e4bd1288015}"), ("relative_path", ".\\base.vhdx"),
+                                  ("absolute_win32_path", "C:\\vm\\base.vhdx")], rng=rng)
+        sf, _, _ = wvx.build(rng, block_size=1 << 20, sector_size=512, nblocks=3, states=[6, 0, 7], tag=rng.getrandbits(32), has_parent=True, locator=loc,
+                             partial={2: chains.bitmap_flags(rng, (1 << 20) // 512)}, checksums=False)
+        fh = as_handle(sf.to_bytes() if rng.random() < 0.5 else sf)
+        o = call(lambda: VHDX(fh).read(4096))
     elif fmt == "qcow2":
         from dissect.hypervisor.disk.qcow2 import QCow2
         from vf.writers import qcow2 as wq
